@@ -29,6 +29,36 @@ def run_engine(engine, casefile, timeout=1800):
     return out.split("\n")[:-1]
 
 
+def run_impl_chunk(exe, workdir, lines, timeout=90):
+    """core.run_impl_lines, but a library that does not return is an outcome as well: the case the
+    driver hangs on is recorded (exit 'timeout') and the rest of the chunk is not run (a chunk takes a
+    few seconds; every further hang would cost the full time limit again)."""
+    out, crashes = [], {}
+    start, n = 0, len(lines)
+    while start < n:
+        cf = os.path.join(workdir, "impl-cases-%d-%d.txt" % (os.getpid(), start))
+        with open(cf, "w") as f:
+            for l in lines[start:]:
+                f.write(l + "\n")
+        rc, o, err = core.run_impl(exe, [cf], timeout=timeout)
+        os.unlink(cf)
+        got = o.split("\n")
+        got.pop()                       # "" after the last newline, or a partial line
+        got = got[:n - start]
+        out += got
+        start += len(got)
+        if start < n:
+            crashes[start] = (rc, err[-2500:])
+            out.append("CRASH %s" % rc)
+            start += 1
+            if rc == "timeout":
+                break
+        elif rc != 0:
+            crashes[n - 1] = (rc, err[-2500:])
+    out += ["NOT-RUN"] * (n - len(out))
+    return out, crashes
+
+
 GENERATORS = {
     "dd": fmtgen.gen_dd,
     "elf": fmtgen.gen_elf,
@@ -166,8 +196,8 @@ def check(run):
         if " F=lkcd " in line:
             index_tie(run, exe_idx, [line], [{"key": "replay", "image": img, "pfns": []}], show=True)
         return
-    plan = [("dd", 110 if quick else 2000), ("elf", 90 if quick else 2000),
-            ("sadump", 70 if quick else 1200), ("lkcd", 90 if quick else 2000),
+    plan = [("dd", 100 if quick else 2000), ("elf", 75 if quick else 2000),
+            ("sadump", 65 if quick else 1200), ("lkcd", 80 if quick else 2000),
             ("s390", 40 if quick else 400)]
     only = os.environ.get("VERIF_C01_FORMATS")
     if only:
@@ -229,7 +259,7 @@ def run_lines(run, exe, lines, jobs=4):
         j, kind = task
         lo, hi = bounds[j]
         if kind == "impl":
-            out, crashes = core.run_impl_lines(exe, chunk_dir(j), lines[lo:hi])
+            out, crashes = run_impl_chunk(exe, chunk_dir(j), lines[lo:hi])
             res["impl"][lo:hi] = out
             for k, v in crashes.items():
                 res["crashes"][lo + k] = v
@@ -254,7 +284,7 @@ def index_tie(run, exe_idx, lines, infos, show=False):
         for l in lines:
             f.write(l + "\n")
     with ThreadPoolExecutor(max_workers=2) as ex:
-        fi = ex.submit(core.run_impl_lines, exe_idx, d, lines)
+        fi = ex.submit(run_impl_chunk, exe_idx, d, lines, 240)
         fm = ex.submit(run_engine, "fmt-lkidx", cf)
         (impl, crashes), model = fi.result(), fm.result()
     if show:
@@ -264,6 +294,8 @@ def index_tie(run, exe_idx, lines, infos, show=False):
         info = infos[i]
         a = impl[i] if i < len(impl) else "MISSING"
         b = model[i] if i < len(model) else "MISSING"
+        if a == "NOT-RUN":
+            continue
         run.count("lkcd index dumps compared", a.count("|I:"))
         if i in crashes:
             rc, err = crashes[i]
@@ -285,6 +317,11 @@ def compare(run, exe, lines, infos, res):
     for i, line in enumerate(lines):
         info = infos[i]
         enc, impl, model, spec = (res[k][i] if i < len(res[k]) else "MISSING" for k in ("enc", "impl", "model", "spec"))
+        if info["key"].startswith("elf") or " F=elf " in line:
+            # a virtual address that no LOAD segment answers goes to libaddrxlat (model and spec:
+            # outcome 98); the generated cores have no page tables, so the library's answer is
+            # KDUMP_ERR_ADDRXLAT (9)
+            impl = " ".join("R98:" + t[3:] if t.startswith("R9:") else t for t in impl.split())
         canon = info["key"] + " " + ",".join("%x:%s" % (p, info.get("methods", {}).get(p, "")) for p in info["pfns"])
         nontrivial = bool(info["pfns"]) and " R0:" in impl
         run.note_case(canon, nontrivial)
@@ -299,14 +336,19 @@ def compare(run, exe, lines, infos, res):
         if len(run.cov["samples"]) < 4:
             run.sample({"layout": info["key"], "pfns": ["%x" % p for p in info["pfns"]][:12],
                         "impl": impl[:160]})
+        if impl == "NOT-RUN":
+            continue
         if not enc.startswith("ok"):
             run.violation("machinery", "the spec encoder failed on a generated layout: " + enc,
                           {"case": line}, found_input=False, signature="fmt encoder failed")
             continue
         if i in res["crashes"]:
             rc, err = res["crashes"][i]
-            report(run, line, info, "impl", "the library crashes / sanitizer report (exit %s) reading a %s dump"
-                   % (rc, info["key"]), {"impl_exit": rc, "stderr_tail": err[-1500:]}, True,
+            report(run, line, info, "impl",
+                   ("the library does not return (killed after the time limit) reading a %s dump" % info["key"])
+                   if rc == "timeout" else
+                   ("the library crashes / sanitizer report (exit %s) reading a %s dump" % (rc, info["key"])),
+                   {"impl_exit": rc, "stderr_tail": err[-1500:]}, True,
                    "fmt crash " + info["key"].split()[0] + " " + err[-200:])
             continue
         d_spec = first_diff(impl, spec)
